@@ -41,6 +41,8 @@ void cv_sparse_digit_cells(CellVec *c, int res, int quick); /* all digits 0 exce
 void cv_sparse_digit_sample(CellVec *c, int res, int n);  /* n cells drawn from cv_sparse_digit_cells (always including long zero runs) */
 void cv_coarse_boundary_cells(CellVec *c, int res, int per); /* cells of `res` lying on the border between two cells of each coarser resolution (0..3, res-2, res-1) */
 void cv_coarse_boundary_sample(CellVec *c, int res, int n);  /* n random cells of cv_coarse_boundary_cells(res, 0) */
+void cv_face_centre_cells(CellVec *c, int res, int ndir); /* cells on and 1e-9..1e-2 rad around the 20 icosahedron face centres (ndir directions per distance) */
+int vt_face_centres(LatLng out[20]);                       /* the 20 face centres, from the public res-0 pentagon centres */
 void cv_polar_cells(CellVec *c, int res);               /* the cells containing the poles and their neighbours */
 void cv_antimeridian_cells(CellVec *c, int res, int n); /* cells on lng = +-pi at n latitudes, with neighbours */
 void cv_icosa_band_cells(CellVec *c, int res, int nT);  /* cells 1e-9..3e-3 rad either side of the 30 icosahedron edges (midpoints, ends, random) */
